@@ -101,6 +101,9 @@ pub struct Slot {
 
 pub struct Arena {
     slots: Vec<Slot>,
+    /// heap mode (for the memcheck pass): every slice is (the head or the tail of) a heap block of its own
+    heap: Vec<Option<Box<[u8]>>>,
+    pub heap_mode: bool,
 }
 
 unsafe impl Send for Arena {}
@@ -123,13 +126,27 @@ impl Arena {
             assert_eq!(rc, 0);
             slots.push(Slot { base });
         }
-        Arena { slots }
+        Arena { slots, heap: (0..nslots).map(|_| None).collect(), heap_mode: false }
     }
     fn data(&self, slot: usize) -> *mut u8 {
         unsafe { self.slots[slot].base.add(PAGE) }
     }
     /// Place `content` in `slot`; the rest of the data pages is filled with canaries.
     pub fn place(&mut self, slot: usize, content: &[u8], mode: Mode, off: usize) -> Placed {
+        if self.heap_mode {
+            // End: the slice is the tail of an exact-size heap block (`off` bytes of padding in front decide its alignment),
+            // so one byte past the slice is one byte past the allocation. Start (and Mid): the slice is the head of the block.
+            let pad = off % 64;
+            let len = content.len();
+            let mut v: Vec<u8> = Vec::with_capacity(len + pad);
+            let start = if mode == Mode::End { pad } else { 0 };
+            v.resize(len + pad, CANARY);
+            v[start..start + len].copy_from_slice(content);
+            let mut b = v.into_boxed_slice();
+            let ptr = unsafe { b.as_mut_ptr().add(start) };
+            self.heap[slot] = Some(b);
+            return Placed { ptr, len, slot, start };
+        }
         let len = content.len();
         assert!(len + 64 <= DATA);
         let start = match mode {
@@ -146,15 +163,25 @@ impl Arena {
         }
     }
     pub fn readonly(&mut self, slot: usize) {
+        if self.heap_mode {
+            return;
+        }
         let rc = unsafe { mprotect(self.data(slot), DATA, PROT_READ) };
         assert_eq!(rc, 0);
     }
     pub fn writable(&mut self, slot: usize) {
+        if self.heap_mode {
+            return;
+        }
         let rc = unsafe { mprotect(self.data(slot), DATA, PROT_READ | PROT_WRITE) };
         assert_eq!(rc, 0);
     }
     /// canaries around the placed slice intact?
     pub fn canaries_ok(&self, p: &Placed) -> bool {
+        if self.heap_mode {
+            let b = self.heap[p.slot].as_ref().unwrap();
+            return b[..p.start].iter().all(|x| *x == CANARY) && b[p.start + p.len..].iter().all(|x| *x == CANARY);
+        }
         let d = self.data(p.slot);
         unsafe {
             let all = std::slice::from_raw_parts(d, DATA);
